@@ -17,6 +17,7 @@ namespace WS.History
 structure Obs where
   efth : Nat
   dir : Nat
+  freq : Nat
   attrKnown : Bool
 deriving Repr, DecidableEq
 
@@ -25,6 +26,7 @@ inductive Op where
   | statDa (name : String)      -- ds.efth.spec.<stat>() / da.spec.<stat>()
   | editEfth                    -- ds['efth'] = …
   | assignDir                   -- ds['dir'] = … / da['dir'] = …
+  | assignFreq                  -- ds['freq'] = … / da['freq'] = …
   | partition (mk mth : Nat)    -- a watershed call on some other array of shape mk × mth
   | attrLookup (key : String)   -- a call that looks `key` up in the global attribute table (e.g. crsd())
   | unknownStat                 -- stats(['nope']) → ValueError
@@ -34,6 +36,7 @@ deriving Repr, DecidableEq
 structure State where
   efthVer : Nat := 0
   dirVer : Nat := 0
+  freqVer : Nat := 0
   /-- OLD: efth version the Dataset accessor's bound methods were taken from (none = accessor not created yet) -/
   bound : Option Nat := none
   /-- OLD: dir version at which the DataArray accessor memoised `dd` (per efth version, as the accessor object is
@@ -52,9 +55,10 @@ def ymlStats : List String :=
 
 /-- repaired semantics: every observation is computed from the current contents; only the C shape memo changes -/
 def stepNew (s : State) : Op → State × Option Obs
-  | .statDs n | .statDa n => (s, some ⟨s.efthVer, s.dirVer, ymlStats.contains n⟩)
+  | .statDs n | .statDa n => (s, some ⟨s.efthVer, s.dirVer, s.freqVer, ymlStats.contains n⟩)
   | .editEfth => ({ s with efthVer := s.efthVer + 1 }, none)
   | .assignDir => ({ s with dirVer := s.dirVer + 1 }, none)
+  | .assignFreq => ({ s with freqVer := s.freqVer + 1 }, none)
   | .partition mk mth => ({ s with cshape := some (mk, mth) }, none)
   | .attrLookup _ => (s, none)
   | .unknownStat => (s, none)
@@ -69,14 +73,15 @@ def stepOld (s : State) : Op → State × Option Obs
     let (dv, memo) := match s.ddMemo with
       | some (e, d) => if e = b then (d, s.ddMemo) else (s.dirVer, some (b, s.dirVer))
       | none => (s.dirVer, some (b, s.dirVer))
-    ({ s with bound := some b, ddMemo := memo }, some ⟨b, dv, ymlStats.contains n || s.inserted.contains n⟩)
+    ({ s with bound := some b, ddMemo := memo }, some ⟨b, dv, s.freqVer, ymlStats.contains n || s.inserted.contains n⟩)
   | .statDa n =>
     let (dv, memo) := match s.ddMemo with
       | some (e, d) => if e = s.efthVer then (d, s.ddMemo) else (s.dirVer, some (s.efthVer, s.dirVer))
       | none => (s.dirVer, some (s.efthVer, s.dirVer))
-    ({ s with ddMemo := memo }, some ⟨s.efthVer, dv, ymlStats.contains n || s.inserted.contains n⟩)
+    ({ s with ddMemo := memo }, some ⟨s.efthVer, dv, s.freqVer, ymlStats.contains n || s.inserted.contains n⟩)
   | .editEfth => ({ s with efthVer := s.efthVer + 1 }, none)
   | .assignDir => ({ s with dirVer := s.dirVer + 1 }, none)
+  | .assignFreq => ({ s with freqVer := s.freqVer + 1 }, none)
   | .partition mk mth => ({ s with cshape := some (mk, mth) }, none)
   | .attrLookup k => ({ s with inserted := k :: s.inserted }, none)
   | .unknownStat => (s, none)
@@ -90,7 +95,7 @@ def run (step : State → Op → State × Option Obs) (s : State) : List Op → 
     (s'', o :: os)
 
 /-- a fresh object holding the same contents: same versions, no caches, pristine attribute table -/
-def fresh (s : State) : State := { efthVer := s.efthVer, dirVer := s.dirVer }
+def fresh (s : State) : State := { efthVer := s.efthVer, dirVer := s.dirVer, freqVer := s.freqVer }
 
 /-- what the last operation of a history observes -/
 def lastObs (step : State → Op → State × Option Obs) (h : List Op) (op : Op) : Option Obs :=
